@@ -321,6 +321,10 @@ var sorts = [][]models.SortOption{
 	nil,
 	{{Property: "a"}}, {{Property: "a", Descending: true}}, {{Property: "n.x"}}, {{Property: "n.x", Descending: true}}, {{Property: "missing"}}, {{Property: "m"}},
 	{{Property: "cat"}, {Property: "a", Descending: true}}, {{Property: "n.x"}, {Property: "a"}}, {{Property: "missing"}, {Property: "a"}}, {{Property: "cat", Descending: true}, {Property: "n.x", Descending: true}},
+	// every direction pattern over two and three keys with ties on the leading keys (a direction must not leak into the next key)
+	{{Property: "cat", Descending: true}, {Property: "a"}}, {{Property: "cat"}, {Property: "a"}},
+	{{Property: "cat", Descending: true}, {Property: "n.x"}, {Property: "a", Descending: true}}, {{Property: "cat"}, {Property: "n.x", Descending: true}, {Property: "a"}},
+	{{Property: "missing", Descending: true}, {Property: "cat", Descending: true}, {Property: "a"}},
 	{{Property: "a"}, {Property: "a"}, {Property: "cat"}, {Property: "n.x"}, {Property: "n.y"}, {Property: "m"}, {Property: "missing"}, {Property: "a", Descending: true}, {Property: "cat"}, {Property: "n.x"}},
 }
 
@@ -604,7 +608,7 @@ func scalarSelect(o *sl.Obs, in *sl.Inst, m *sl.Model) {
 }
 
 func master(cfg *harness.Config, rep *harness.Report) {
-	rep.Rule = "fixed 8-point data set (distinct distances, points lacking fields, a field that is int / string / float / absent, a field that is scalar in one point and a map in another); all _and/_or trees with 1-3 children and all two-level trees over a 7-leaf pool (graph vector, flat vector, two text, string filter, integer filter, _id) x 3 weight assignments (nil / positive / negative and zero): result set = set algebra of the sub-results, hybrid = sum of weighted contributions, ranked first highest hybrid first, filter-only after; on a fixed sample of trees and all leaves: 11 select lists x 12 sort lists (asc/desc, nested, missing, mixed-type, 10 keys) with DecodedData = exactly the selected stored values and adjacent-pair sortedness, and offset {0,1,2,n-1,n,n+3} x limit {1,2,100} = contiguous slice of the full order (compared by order keys)"
+	rep.Rule = "fixed 8-point data set (distinct distances, points lacking fields, a field that is int / string / float / absent, a field that is scalar in one point and a map in another); all _and/_or trees with 1-3 children and all two-level trees over a 7-leaf pool (graph vector, flat vector, two text, string filter, integer filter, _id) x 3 weight assignments (nil / positive / negative and zero): result set = set algebra of the sub-results, hybrid = sum of weighted contributions, ranked first highest hybrid first, filter-only after; on a fixed sample of trees and all leaves: 11 select lists x 17 sort lists (asc/desc, every direction pattern over two and three keys with ties on the leading keys, nested, missing, mixed-type, 10 keys) with DecodedData = exactly the selected stored values and adjacent-pair sortedness, and offset {0,1,2,n-1,n,n+3} x limit {1,2,100} = contiguous slice of the full order (compared by order keys)"
 	rep.Assumptions = []string{"sorting is defined on the selected data (sort keys must be selected or '*')", "leaf limits are cut where no distance tie exists; trees whose reference is ambiguous are skipped and counted", "ties in the final order may be resolved either way"}
 	p := pool.New(pool.Options{CPUsPerWorker: 2, JobTimeout: 300 * time.Second})
 	syms := symbols()
